@@ -3,9 +3,12 @@
 Deductive part: the carrying obligation of DESIGN C06 -- Atoms.extend_types appends the pattern's type tables after the structure's and
 returns offsets equal to the old table lengths, so that `pattern type id + offset` resolves to the pattern's own coefficient text, and old
 ids keep their text -- proved for all table sizes (shared with C11), plus the alignment of the pair-coefficient table with the atom types
-(refuted for a CIF-loaded structure without pair table: known finding).  Removal / re-indexing of terms on the final delete is C10's proof;
-supersession and re-targeting inside extend, and the composition over matches and over repeated replacements, are BOUNDED with a reference
-model on the real code (bounded/C06.py).
+(refuted for a CIF-loaded structure without pair table: known finding).  Atom clause (contracts/C04.prove_atoms_of_the_pattern): the replacement
+block is executed for any number of non-overlapping matches against the contracts of extend_types / extend / __delitem__, a ghost sequence
+recording which pattern atom every appended row came from: inserted atoms carry the pattern's charge, group and type id + offset, atoms taken
+over the type id + offset of their pattern atom, none is deleted, and the type resolves to the pattern's label, element, mass.  Supersession and
+re-targeting of terms inside one extend call is C11's proof, removal / re-indexing on the final delete C10's; the survival of the pattern's
+terms across later matches and repeated replacements are BOUNDED with a reference model on the real code (bounded/C06.py).
 """
 from contracts import C11
 
@@ -19,6 +22,11 @@ META = {
 
 def build(S):
     C11.prove_extend_types(S, pair_alignment=True)
+    from contracts import C04
+    S.function('mofun/mofun.py', 'replace_pattern_in_structure')
+    C04.prove_atoms_of_the_pattern(S)
+    S.clause('inserted atoms carry the pattern\'s charge, group and type; atoms taken over carry the pattern\'s type; that type resolves to the pattern\'s label, element, mass',
+             'PROVED for any number of non-overlapping matches (replacement block, modular over the contracts of extend / __delitem__)')
     S.clause('pattern type ids resolve to the pattern\'s coefficient text; old ids keep theirs', 'PROVED (extend_types offsets)')
     S.clause('pair coefficients stay aligned with atom types', 'PROVED when the structure has a pair table; the CIF workflow (atom types but no pair table) is refuted natively by the bounded stage: known finding F11')
     S.clause('each pattern term once between the corresponding atoms; supersession; terms touching removed atoms disappear; repeated replacements', 'BOUNDED (reference model, bounded/C06.py)')
